@@ -21,6 +21,9 @@ func init() {
 var c20Codes = []uint32{264, 268, 279, 284} // Origin-Host, Result-Code, Failed-AVP, Proxy-Info
 var c20Names = []string{"Origin-Host", "Result-Code", "Failed-AVP", "Proxy-Info"}
 
+var c20HighCodes = []uint32{3000000000, 2147483648}
+var c20HighNames = []string{"Priv-High", "Priv-Half"}
+
 const c20AbsentCode = 263 // Session-Id: defined, never in the tree
 const c20AbsentName = "Session-Id"
 const c20UndefCode = 60001
@@ -41,6 +44,9 @@ func (t T) String() string {
 			s = append(s, k.String())
 		}
 		return fmt.Sprintf("33(OctetString in the dictionary){%s}", strings.Join(s, " "))
+	}
+	if t.K == 6 || t.K == 7 {
+		return fmt.Sprint(c20HighCodes[t.K-6])
 	}
 	if t.K < 2 {
 		return fmt.Sprint(c20Codes[t.K])
@@ -81,7 +87,7 @@ func (s *c20Spy) Type() datatype.TypeID {
 var c20Shared map[string]*diam.AVP
 
 func c20Build(t T) *diam.AVP {
-	if c20Shared != nil && t.K != 0 && t.K != 1 && t.K != 4 {
+	if c20Shared != nil && t.K != 0 && t.K != 1 && t.K != 4 && t.K != 6 && t.K != 7 {
 		key := t.String()
 		if a, ok := c20Shared[key]; ok {
 			return a
@@ -103,6 +109,9 @@ func c20BuildNode(t T) *diam.AVP {
 	case 4:
 		// the code of a Grouped AVP in another vendor's name space: carried as opaque data, not a group
 		return diam.NewAVP(279, 0xC0, 4242, datatype.Unknown("opaque"))
+	case 6, 7:
+		// codes in the upper half of the 32-bit range (the private dictionary defines them)
+		return diam.NewAVP(c20HighCodes[t.K-6], 0x40, 0, datatype.Unsigned32(7))
 	}
 	g := &diam.GroupedAVP{}
 	for _, k := range t.Kids {
@@ -169,7 +178,7 @@ func c20HasRepeat(ts []T) bool {
 	seen := map[string]bool{}
 	var walk func(t T) bool
 	walk = func(t T) bool {
-		if t.K == 0 || t.K == 1 || t.K == 4 {
+		if t.K == 0 || t.K == 1 || t.K == 4 || t.K == 6 || t.K == 7 {
 			return false
 		}
 		k := t.String()
@@ -206,6 +215,8 @@ const c20PrivXML = `<?xml version="1.0" encoding="UTF-8"?>
 <avp name="Result-Code" code="9268" must="M" may="P" must-not="V" may-encrypt="-"><data type="Unsigned32"/></avp>
 <avp name="Failed-AVP" code="9279" must="M" may="P" must-not="V" may-encrypt="-"><data type="Grouped"/></avp>
 <avp name="Proxy-Info" code="9284" must="M" may="P" must-not="V" may-encrypt="-"><data type="Grouped"/></avp>
+<avp name="Priv-High" code="3000000000" must="M" may="P" must-not="V" may-encrypt="-"><data type="Unsigned32"/></avp>
+<avp name="Priv-Half" code="2147483648" must="M" may="P" must-not="V" may-encrypt="-"><data type="Unsigned32"/></avp>
 <avp name="Only-Private" code="9300" must="M" may="P" must-not="V" may-encrypt="-"><data type="Unsigned32"/></avp>
 </application></diameter>`
 
@@ -263,6 +274,10 @@ func c20Eval(cs C20Case) (res string, queries int) {
 			for _, n := range []string{"Origin-Host", "Result-Code", "Failed-AVP", "Proxy-Info", "Only-Private"} {
 				qs = append(qs, q{n, 9999, "name of an absent code in the private dictionary: " + n})
 			}
+			// codes beyond 2^31, asked for as uint32, as int and by name
+			for i, c := range c20HighCodes {
+				qs = append(qs, q{c, c, fmt.Sprint(c)}, q{int(c), c, fmt.Sprintf("int(%d)", c)}, q{c20HighNames[i], c, c20HighNames[i]})
+			}
 		}
 		if !cs.Priv {
 		qs = append(qs, q{uint32(33), 33, "33"}, q{"Proxy-State", 33, "Proxy-State"})
@@ -294,6 +309,9 @@ func c20Eval(cs C20Case) (res string, queries int) {
 		// paths of length <= 3 over the alphabet + the absent code, by number and by name
 		alpha := append(append([]uint32{}, c20Codes...), c20AbsentCode)
 		names := append(append([]string{}, c20Names...), c20AbsentName)
+		if cs.Priv {
+			alpha, names = append(alpha, c20HighCodes...), append(names, c20HighNames...)
+		}
 		if !cs.Priv {
 			alpha, names = append(alpha, 33), append(names, "Proxy-State")
 		}
@@ -312,10 +330,13 @@ func c20Eval(cs C20Case) (res string, queries int) {
 			var keys []interface{}
 			for j, x := range p {
 				codes = append(codes, alpha[x])
-				if (pi+j)%2 == 0 {
-					keys = append(keys, alpha[x])
-				} else {
+				switch {
+				case (pi+j)%2 == 1:
 					keys = append(keys, names[x])
+				case (pi+j)%4 == 0:
+					keys = append(keys, alpha[x])
+				default:
+					keys = append(keys, int(alpha[x])) // a number may also be given as a Go int
 				}
 			}
 			want := refPath(m.AVP, codes)
@@ -445,6 +466,16 @@ func c20Enum(ctx *ev.Ctx, fn func(C20Case)) string {
 		}
 		levels = append(levels, next)
 	}
+	// leaves whose codes lie beyond 2^31 (defined by the private dictionary only): alone, in groups,
+	// next to each other
+	for _, hk := range []int{6, 7} {
+		for _, t := range [][]T{{{K: hk}}, {{K: 2, Kids: []T{{K: hk}}}}, {{K: 3, Kids: []T{{K: 2, Kids: []T{{K: hk}, {K: 0}}}, {K: hk}}}, {K: hk}},
+			{{K: hk}, {K: 13 - hk}, {K: 2, Kids: []T{{K: 13 - hk}}}}} {
+			if ctx.Mine() {
+				fn(C20Case{Tree: t, Priv: true})
+			}
+		}
+	}
 	emit := func(t []T) {
 		if ctx.Mine() {
 			fn(C20Case{Tree: t})
@@ -499,7 +530,7 @@ func c20Enum(ctx *ev.Ctx, fn func(C20Case)) string {
 			}
 		}
 	}
-	return "all AVP trees over two leaf codes, two grouped codes and one leaf that carries the code of a Grouped AVP under a foreign vendor id (opaque data, not a group) and one container whose code the dictionary declares as OctetString but which the application assembled as a group: every single node of nesting depth <=3 with inner width <=3 (outermost group: <=2 children quick, <=3 thorough), alone and next to a leaf in both orders; every ordered pair (and a family of triples) of depth-<=2 nodes; empty groups, repeated codes at several depths, groups in groups; chains of 1..40 nested groups (innermost empty or holding a leaf, with or without a sibling leaf at every level). Per tree: FindAVP and FindAVPs by uint32, int and name for every code of the alphabet, a defined but absent code, an undefined code and an undefined name; FindAVPsWithPath for every path of length <=3 over the alphabet plus the absent code, alternating number and name per step. Every tree is searched twice: in a message carrying dict.Default and in one carrying a private dictionary that names the four codes differently and attaches the default names to codes absent from the tree (a name must resolve through the message's own dictionary). After the first round of queries each message is edited without going through Message.AddAVP / InsertAVP (a member added to its first group, its first top-level AVP cut out of the exported slice, its AVPs replaced by Marshal) and every query is asked again. Path searches are also made overlapping in time (a nested search on another message, started from inside the outer one through a caller-defined data type) after a search whose path did not resolve. Every tree in which a group subtree occurs more than once is also built with ONE node object for all its occurrences (a prebuilt group attached in several places): every occurrence must still be reported, in pre-order. Results are compared by pointer identity with a pre-order reference walk / strict per-level match."
+	return "all AVP trees over two leaf codes, two grouped codes and one leaf that carries the code of a Grouped AVP under a foreign vendor id (opaque data, not a group) and one container whose code the dictionary declares as OctetString but which the application assembled as a group: every single node of nesting depth <=3 with inner width <=3 (outermost group: <=2 children quick, <=3 thorough), alone and next to a leaf in both orders; every ordered pair (and a family of triples) of depth-<=2 nodes; empty groups, repeated codes at several depths, groups in groups; leaves with codes 2147483648 and 3000000000 (private dictionary; asked for as uint32, as int and by name); chains of 1..40 nested groups (innermost empty or holding a leaf, with or without a sibling leaf at every level). Per tree: FindAVP and FindAVPs by uint32, int and name for every code of the alphabet, a defined but absent code, an undefined code and an undefined name; FindAVPsWithPath for every path of length <=3 over the alphabet plus the absent code, alternating number (uint32 or int) and name per step. Every tree is searched twice: in a message carrying dict.Default and in one carrying a private dictionary that names the four codes differently and attaches the default names to codes absent from the tree (a name must resolve through the message's own dictionary). After the first round of queries each message is edited without going through Message.AddAVP / InsertAVP (a member added to its first group, its first top-level AVP cut out of the exported slice, its AVPs replaced by Marshal) and every query is asked again. Path searches are also made overlapping in time (a nested search on another message, started from inside the outer one through a caller-defined data type) after a search whose path did not resolve. Every tree in which a group subtree occurs more than once is also built with ONE node object for all its occurrences (a prebuilt group attached in several places): every occurrence must still be reported, in pre-order. Results are compared by pointer identity with a pre-order reference walk / strict per-level match."
 }
 
 func runC20(ctx *ev.Ctx) {
